@@ -10,6 +10,7 @@ import (
 	"bytes"
 	"encoding/binary"
 	"errors"
+	"io"
 	"fmt"
 	"net"
 	"os"
@@ -62,6 +63,8 @@ type scenario struct {
 	TickClose   bool  `json:"tickClose,omitempty"`
 	TickDeltaNs int64 `json:"tickDeltaNs,omitempty"`
 	SamePort  bool   `json:"samePort,omitempty"` // the remotes share one port and differ in a high octet of their address (127.<i>.7.9:7001) instead of sharing the address
+	ReadBuf   int    `json:"readBuf,omitempty"` // readers use slices of this length (0: large): longer datagrams come back cut, with a short-buffer error, and are consumed whole
+	BadFirst  bool   `json:"badFirst,omitempty"` // a Listen with an invalid batch configuration is refused first; it must not keep the port
 	ReadGapNs int64  `json:"readGapNs,omitempty"` // readers pause this long before every Read (lagging readers keep data in the connection's ring)
 }
 
@@ -83,7 +86,13 @@ func gen(r *harn.Rng, tier string) interface{} {
 			// two small datagrams and one that ends exactly at the end of the connection's 2 KiB ring
 			// (2-byte length prefixes), then more traffic
 			a, b := r.Pick(8, 100, 500), r.Pick(8, 100, 300)
-			pre := []dg{{GapNs: 0, Len: a}, {GapNs: 0, Len: b}, {GapNs: gaps[r.Intn(len(gaps))], Len: 2048 - 6 - a - b}}
+			third := 2048 - 6 - a - b
+			if r.Bool(0.4) {
+				// ... or whose 2-byte length prefix occupies exactly the last two bytes of the ring
+				b = 2046 - 4 - a
+				third = r.Pick(8, 100, 1000)
+			}
+			pre := []dg{{GapNs: 0, Len: a}, {GapNs: 0, Len: b}, {GapNs: gaps[r.Intn(len(gaps))], Len: third}}
 			plan = append(pre, plan...)
 		}
 		sc.Remotes = append(sc.Remotes, plan)
@@ -91,6 +100,10 @@ func gen(r *harn.Rng, tier string) interface{} {
 	if r.Bool(0.3) {
 		sc.ReadGapNs = int64(r.Pick(1, 1000, 100000, 1000000))
 	}
+	if r.Bool(0.2) {
+		sc.ReadBuf = r.Pick(8, 16, 100, 1000)
+	}
+	sc.BadFirst = r.Bool(0.15)
 	for i := 0; i < 6; i++ {
 		sc.CloseAfter = append(sc.CloseAfter, r.Pick(0, 0, 0, 1, 2, 3))
 		t := int64(0)
@@ -176,11 +189,28 @@ func run(env *simrt.Env, sci interface{}) {
 		lc.Batch = udp.BatchIOConfig{Enable: true, ReadBatchSize: sc.BatchRead, WriteBatchSize: 2, WriteBatchInterval: time.Hour}
 	}
 	laddr := &net.UDPAddr{IP: net.IPv4(127, 0, 0, 1), Port: 7000}
+	if sc.BadFirst {
+		bad := udp.ListenConfig{Backlog: 1, Batch: udp.BatchIOConfig{Enable: true}} // batch sizes and interval missing
+		if bl, err := bad.Listen("udp", laddr); err == nil {
+			_ = bl.Close()
+		} else {
+			env.Probe("invalid-config-refused")
+		}
+	}
 	l, err := lc.Listen("udp", laddr)
 	if err != nil {
+		if sc.BadFirst {
+			env.Fail("C12/socket-not-closed", "a Listen with an invalid batch configuration was refused, yet the port is taken afterwards: %v", err)
+			return
+		}
 		env.Infra("Listen: %v", err)
 		return
 	}
+	// the listener owns a copy of its configuration: what the caller does with the value
+	// afterwards (reusing it for another listener) changes nothing
+	lc.AcceptFilter = func([]byte) bool { return false }
+	lc.Backlog = 0
+	lc.Batch = udp.BatchIOConfig{}
 	lkey := laddr.String()
 	var peers []*simnet.UDPConn
 	for i := range sc.Remotes {
@@ -197,6 +227,9 @@ func run(env *simrt.Env, sci interface{}) {
 	acceptorDone := false
 	readUntilErr := func(c *connRec) {
 		buf := make([]byte, 9000)
+		if sc.ReadBuf > 0 {
+			buf = make([]byte, sc.ReadBuf)
+		}
 		for {
 			if sc.ReadGapNs > 0 {
 				env.Sleep(time.Duration(sc.ReadGapNs))
@@ -204,6 +237,10 @@ func run(env *simrt.Env, sci interface{}) {
 			env.Enter("conn.Read")
 			n, err := c.conn.Read(buf)
 			env.Leave()
+			if errors.Is(err, io.ErrShortBuffer) && sc.ReadBuf > 0 && n == sc.ReadBuf {
+				err = nil // the datagram was longer than the slice: its leading bytes, the rest is dropped
+				env.Probe("short-read")
+			}
 			if err != nil {
 				c.readErr = err
 				return
@@ -351,7 +388,7 @@ func run(env *simrt.Env, sci interface{}) {
 			msg := payload(ri, 900+c.idx, 16, false)
 			_, _ = peers[ri].WriteTo(msg, laddr)
 			settle()
-			if sc.DropP == 0 && c.closeInv == 0 && !(len(c.reads) > before && bytes.Equal(c.reads[len(c.reads)-1], msg)) {
+			if sc.DropP == 0 && c.closeInv == 0 && !(len(c.reads) > before && sameDatagram(sc, msg, c.reads[len(c.reads)-1])) {
 				env.Fail("C12/accepted-conn-cannot-receive", "a datagram sent to connection #%d after the listener was closed was not read from it (reader error: %v)", c.idx, c.readErr)
 				return
 			}
@@ -382,7 +419,7 @@ func run(env *simrt.Env, sci interface{}) {
 				for i, c := range open {
 					found := false
 					for _, p := range c.reads[before[i]:] {
-						if bytes.Equal(p, msgs[i]) {
+						if sameDatagram(sc, msgs[i], p) {
 							found = true
 						}
 					}
@@ -544,7 +581,7 @@ func run(env *simrt.Env, sci interface{}) {
 			return false
 		}
 		for k, p := range c.reads {
-			if !bytes.Equal(ar[i+k].payload, p) {
+			if !sameDatagram(sc, ar[i+k].payload, p) {
 				return false
 			}
 		}
@@ -573,7 +610,7 @@ func run(env *simrt.Env, sci interface{}) {
 	readTags := map[string]bool{}
 	for _, c := range conns {
 		for _, p := range c.reads {
-			readTags[string(p)] = true
+			readTags[tagKey(p)] = true
 		}
 	}
 	backlogMaybeFull := func(a *arrival, self string) bool {
@@ -589,7 +626,7 @@ func run(env *simrt.Env, sci interface{}) {
 					continue
 				}
 				for _, o := range perRemote[rk] {
-					if o.stamp < a.next && !readTags[string(o.payload)] {
+					if o.stamp < a.next && !readTags[tagKey(o.payload)] {
 						n++ // possibly an unaccepted connection of that remote
 						break
 					}
@@ -751,6 +788,22 @@ func (c *connRec) remoteIndex() int {
 		return int(a.IP.To4()[1])
 	}
 	return a.Port - 7001
+}
+
+// sameDatagram: what a reader got is the datagram, or - with short reader slices - its leading bytes.
+func sameDatagram(sc *scenario, payload, read []byte) bool {
+	if sc.ReadBuf > 0 && len(payload) > sc.ReadBuf {
+		return bytes.Equal(payload[:sc.ReadBuf], read)
+	}
+	return bytes.Equal(payload, read)
+}
+
+// tagKey identifies a datagram by its leading bytes (flag, remote, sequence number).
+func tagKey(p []byte) string {
+	if len(p) > 8 {
+		return string(p[:8])
+	}
+	return string(p)
 }
 
 // peerAddr is the address of remote #i.
